@@ -60,7 +60,8 @@ def make_replay(prop, obl, rec, src, logdir):
     cmd_extra = ["-Z", "concrete-playback", "--concrete-playback=print"]
     rc, text, wall, _ = vlib.run_kani(src, [obl["harness"]], log,
                                       harness_timeout=max(obl.get("timeout", 120) * 2, 240),
-                                      extra=cmd_extra, unwind=obl.get("unwind"), jobs=1)
+                                      extra=cmd_extra, unwind=obl.get("unwind"), jobs=1,
+                                      thorough=bool(rec.get("thorough")))
     tname, tsrc = extract_playback_test(text)
     verifier_tail = "\n".join(l for l in text.splitlines() if not l.startswith("warning") and
                               "unstable" not in l and l.strip() not in ("", "|"))[-4000:]
